@@ -173,7 +173,7 @@ Qed.
 
 Lemma nc_op_checkmultisig e opcode : safe c e -> nc (op_checkmultisig low_s c e opcode).
 Proof.
-  intros [Hcb _]. unfold op_checkmultisig.
+  intros [Hcb _]. unfold op_checkmultisig, multisig_finish.
   destruct (c_sigver c =? SV_TAPSCRIPT); [apply nc_fail|].
   destruct (ssize e <? 1); [apply nc_fail|].
   destruct (num_at_cases e 1 4) as [[kraw Hz]|[y Hy]]; [rewrite Hz|rewrite Hy; apply nc_exn].
@@ -389,7 +389,7 @@ Proof.
 Qed.
 Lemma spr_op_checkmultisig e opcode : spr e (op_checkmultisig low_s c e opcode).
 Proof.
-  unfold op_checkmultisig.
+  unfold op_checkmultisig, multisig_finish.
   destruct (c_sigver c =? SV_TAPSCRIPT); [spr_leaf|].
   destruct (ssize e <? 1); [spr_leaf|].
   destruct (num_at c e 1 4) as [kraw|x|x]; try apply spr_same.
